@@ -22,6 +22,7 @@ import doubles
 import models
 
 LOG = []
+PPI_MAX_ROWS = 5000  # the Lean PointsPerInterval model is quadratic in the number of rows
 
 
 def _dist_base():
@@ -89,31 +90,59 @@ def est_ref(data):
     return {"m": float(np.median(data)), "w": float(np.max(data) - np.min(data) + 1.0)}
 
 
+# what a model built WITHOUT the "intervals" key must use for that dimension (jointmodels.py: NumberOfIntervalsSlicer(10)
+# with the slicer's documented defaults); the Lean slicer model is run with these values, independently of the code
+DEFAULT_SLICER = {"slicer": "number", "n_intervals": 10, "include_max": True, "ref": "center", "value_range": None,
+                  "min_pts": 50, "min_iv": 3}
+
+
+def eff(cfg):
+    """the slicer configuration in effect: {"slicer": "default"} = the description has no "intervals" key"""
+    return DEFAULT_SLICER if cfg["slicer"] == "default" else cfg
+
+
 def make_slicer(cfg):
     from virocon.intervals import NumberOfIntervalsSlicer, PointsPerIntervalSlicer, WidthOfIntervalSlicer
 
     ref = {"median": np.median, "mean": np.mean}.get(cfg.get("ref"), cfg.get("ref"))
+    vr = tuple(cfg["value_range"]) if cfg.get("value_range") is not None else None
     if cfg["slicer"] == "width":
-        return WidthOfIntervalSlicer(cfg["width"], reference=ref, right_open=cfg["right_open"],
+        return WidthOfIntervalSlicer(cfg["width"], reference=ref, right_open=cfg["right_open"], value_range=vr,
                                      min_n_points=cfg["min_pts"], min_n_intervals=cfg["min_iv"])
     if cfg["slicer"] == "number":
-        return NumberOfIntervalsSlicer(cfg["n_intervals"], reference=ref, include_max=cfg["include_max"],
+        return NumberOfIntervalsSlicer(cfg["n_intervals"], reference=ref, include_max=cfg["include_max"], value_range=vr,
                                        min_n_points=cfg["min_pts"], min_n_intervals=cfg["min_iv"])
     return PointsPerIntervalSlicer(cfg["n_points"], reference=ref, last_full=cfg["last_full"],
                                    min_n_points=cfg["min_pts"], min_n_intervals=cfg["min_iv"])
 
 
 def random_slicer_cfg(rng, col):
-    kind = str(rng.choice(["width", "number", "ppi"]))
     n = len(col)
+    kind = str(rng.choice(["width", "number", "ppi"] if n <= PPI_MAX_ROWS else ["width", "number"]))
     mx = float(np.max(col))
+    if n >= 300 and rng.integers(0, 6) == 0:
+        return {"slicer": "default"}  # no "intervals" key in the description
     if kind == "width":
+        vr = None
+        r = int(rng.integers(0, 6))
+        if r == 0:
+            vr = [float(np.quantile(col, 0.1)), float(np.quantile(col, 0.9))]
+        elif r == 1:
+            vr = [None, float(np.quantile(col, 0.9))]
+        elif r == 2:
+            vr = [0.5, None]
         return {"slicer": "width", "width": float(rng.choice([mx / 4, mx / 7, 0.5, 1.0, 0.3])),
                 "right_open": bool(rng.integers(0, 2)), "ref": str(rng.choice(["center", "left", "right", "median"])),
-                "value_range": None, "min_pts": int(rng.choice([1, 3, 10])), "min_iv": int(rng.choice([1, 2, 3]))}
+                "value_range": vr, "min_pts": int(rng.choice([1, 3, 10])), "min_iv": int(rng.choice([1, 2, 3]))}
     if kind == "number":
+        vr = None
+        r = int(rng.integers(0, 6))
+        if r == 0:
+            vr = [float(np.quantile(col, 0.05)), float(np.quantile(col, 0.95))]
+        elif r == 1:
+            vr = [float(np.min(col)) - 1.0, mx + 1.0]
         return {"slicer": "number", "n_intervals": int(rng.choice([2, 3, 5, 8])), "include_max": bool(rng.integers(0, 2)),
-                "ref": str(rng.choice(["center", "left", "right", "median"])), "value_range": None,
+                "ref": str(rng.choice(["center", "left", "right", "median"])), "value_range": vr,
                 "min_pts": int(rng.choice([1, 3, 10])), "min_iv": int(rng.choice([1, 2, 3]))}
     return {"slicer": "ppi", "n_points": int(rng.choice([max(2, n // 3), max(2, n // 5), 7, 25])),
             "last_full": bool(rng.integers(0, 2)), "ref": str(rng.choice(["median", "mean"])),
@@ -132,17 +161,18 @@ def random_data(rng, n, n_dim):
     return x
 
 
-def gen_cases(rng, n_cases):
+def gen_cases(rng, n_cases, sizes=(30, 60, 300, 1000)):
     for _ in range(n_cases):
         n_dim = int(rng.choice([2, 2, 3]))
-        n = int(rng.choice([30, 60, 300, 1000]))
+        n = int(rng.choice(sizes))
         data = random_data(rng, n, n_dim)
-        cond = [None] + [int(rng.integers(0, i)) for i in range(1, n_dim)]
+        # every dimension after the first is conditional on an earlier one OR unconditional itself
+        cond = [None] + [None if rng.integers(0, 3) == 0 else int(rng.integers(0, i)) for i in range(1, n_dim)]
         slicers = [random_slicer_cfg(rng, data[:, j]) for j in range(n_dim)]
         fixed = [None if rng.integers(0, 3) else str(rng.choice(["m", "w"])) for _ in range(n_dim)]
         fd = []
         for i in range(n_dim):
-            r = rng.integers(0, 5)
+            r = rng.integers(0, 6)
             if r == 4:
                 fd.append({"method": "lsq"})  # weights key absent: must default to None for THIS dimension
             elif r == 0:
@@ -151,18 +181,40 @@ def gen_cases(rng, n_cases):
                 fd.append({"method": "mle"})
             elif r == 2:
                 fd.append({"method": "wlsq", "weights": str(rng.choice(["linear", "quadratic", "cubic"]))})
+            elif r == 5 and n <= 1000:
+                # one weight per ROW given to this dimension (also a conditional one: every interval fit is handed it)
+                fd.append({"method": "wlsq", "weights": [float(v) for v in np.round(rng.uniform(0.5, 2.0, n), 3)]})
             else:
                 fd.append({"method": "lsq", "weights": None})
         if rng.integers(0, 5) == 0:
             fd = None
+        bad_fd = None
+        r = rng.integers(0, 14)
+        if r == 0:      # a description without "method"
+            fd = fd if fd is not None else [None] * n_dim
+            k = int(rng.integers(0, n_dim))
+            fd[k] = {} if rng.integers(0, 2) else {"weights": str(rng.choice(["linear", "quadratic"]))}
+            bad_fd = "missing_method"
+        elif r == 1:    # not one description per dimension
+            fd = fd if fd is not None else [None] * n_dim
+            fd = [fd[:-1], fd + [{"method": "mle"}], fd + [None], []][int(rng.integers(0, 4))]
+            bad_fd = "wrong_length"
         chain = [None] + [[None, None, "m_uses_w", "w_uses_m"][int(rng.integers(0, 4))] for _ in range(1, n_dim)]
         as_int = bool(rng.integers(0, 6) == 0)
         if as_int:
             data = np.round(data * 3) + 1.0
             slicers = [random_slicer_cfg(rng, data[:, j]) for j in range(n_dim)]
-        yield {"part": "A", "n_dim": n_dim, "cond": cond, "slicers": slicers, "fixed": fixed, "fit_desc": fd, "chain": chain,
-               "as_int": as_int,
-               "data": [[float(v) for v in r] for r in data], "perm_seed": int(rng.integers(0, 2**31))}
+        case = {"part": "A", "n_dim": n_dim, "cond": cond, "slicers": slicers, "fixed": fixed, "fit_desc": fd, "chain": chain,
+                "as_int": as_int,
+                "data": [[float(v) for v in r] for r in data], "perm_seed": int(rng.integers(0, 2**31))}
+        if bad_fd:
+            case["bad_fd"] = bad_fd
+        if rng.integers(0, 3) == 0:
+            # the caller keeps ONE fit_descriptions list (equal entries are one dict object) and uses it for every call
+            case["own_list"] = True
+        if rng.integers(0, 4) == 0:
+            case["as_list"] = True  # list of rows instead of an ndarray
+        yield case
 
 
 def build_model(case):
@@ -170,7 +222,7 @@ def build_model(case):
 
     descs, deps = [], {}
     for i in range(case["n_dim"]):
-        d = {"intervals": make_slicer(case["slicers"][i])}
+        d = {} if case["slicers"][i]["slicer"] == "default" else {"intervals": make_slicer(case["slicers"][i])}
         if case["cond"][i] is None:
             d["distribution"] = RecDist(tag=i)
         else:
@@ -195,12 +247,28 @@ def build_model(case):
     return GlobalHierarchicalModel(descs), deps
 
 
-def fit_model(case, data):
+def caller_list(case):
+    """the caller's own fit_descriptions object: equal dict entries are ONE dict object (a caller who writes
+    `d = {...}; fit_descriptions = [d, None, d]`)"""
+    fd = copy.deepcopy(case["fit_desc"])
+    if fd is not None:
+        for i in range(len(fd)):
+            for j in range(i):
+                if fd[i] is not None and fd[i] == fd[j]:
+                    fd[i] = fd[j]
+                    break
+    return fd
+
+
+def fit_model(case, data, fd_obj=None):
+    """fd_obj: use this very object as fit_descriptions (caller's own list) instead of a fresh copy of the case's"""
     model, deps = build_model(case)
     if case.get("as_int"):
         data = np.asarray(data).astype(np.int64)  # whole-number observations stored as an integer matrix
+    if case.get("as_list"):
+        data = np.asarray(data).tolist()
     LOG.clear()
-    fd = copy.deepcopy(case["fit_desc"])
+    fd = copy.deepcopy(case["fit_desc"]) if fd_obj is None else fd_obj
     with warnings.catch_warnings():
         warnings.simplefilter("ignore")
         try:
@@ -211,9 +279,73 @@ def fit_model(case, data):
             if "Failed to fit dependence function" in str(e) or "Optimal parameters not found" in str(e):
                 return None, None, "depfit", list(LOG)
             raise
-        except (TypeError, ValueError) as e:
+        except (TypeError, ValueError, KeyError, IndexError, AttributeError) as e:
+            if not LOG and isinstance(e, ValueError):
+                # refused before the first dimension (always unconditional) was fitted: the descriptions were rejected
+                return None, None, "fitdesc:" + str(e), []
+            if isinstance(e, (KeyError, IndexError, AttributeError)) or not LOG:
+                # not a failed dependence-function fit (the first dimension is unconditional and is fitted before any)
+                return None, None, "crash:" + type(e).__name__ + ":" + str(e)[:60], list(LOG)
             return None, None, "depfit:" + type(e).__name__, list(LOG)
     return model, deps, None, list(LOG)
+
+
+def _wkey(w):
+    return w if (w is None or isinstance(w, str)) else ("array", tuple(float(v) for v in np.asarray(w, dtype=float)))
+
+
+def options_seen(log):
+    seen = {}
+    for tag, meth, w, arr in log:
+        seen.setdefault(tag, set()).add((meth, _wkey(w)))
+    return seen
+
+
+def options_mismatch(case, plan, log):
+    """every fit of dimension i (the dimension itself, or each interval's copy of its template) was called with
+    dimension i's method and weights as given in the case's description"""
+    out = []
+    seen = options_seen(log)
+    fd = case["fit_desc"]
+    for i in range(case["n_dim"]):
+        m, w = plan[i].split(":")
+        if w.startswith("arr"):
+            w = _wkey(fd[int(w[3:])]["weights"])
+        want = ("mle", None) if m == "mle" else ("lsq", None if w == "None" else w)
+        if i in seen and seen[i] != {want}:
+            show = lambda t: (t[0], "array[%d]" % len(t[1][1]) if isinstance(t[1], tuple) else t[1])  # noqa: E731
+            out.append(f"dimension {i} was fitted with {sorted(map(str, map(show, seen[i])))}, expected {show(want)}")
+    return out
+
+
+def fit_inputs_mismatch(case, data, model, log, complete):
+    """which observations every fit received: an unconditional dimension i exactly data[:, i] (one fit), a
+    conditional dimension one fit per interval with that interval's data"""
+    out = []
+    data = np.asarray(data, dtype=float)
+    for i in range(case["n_dim"]):
+        entries = [e for e in log if e[0] == i]
+        if not entries and not complete:
+            continue  # the fit loop stopped before this dimension
+        if case["cond"][i] is None:
+            if len(entries) != 1:
+                out.append(("unconditional_dimension_fitted_to_own_column", f"dimension {i} was fitted {len(entries)} times"))
+            elif not np.array_equal(entries[0][3], data[:, i]):
+                col = [j for j in range(case["n_dim"]) if np.array_equal(entries[0][3], data[:, j])]
+                out.append(("unconditional_dimension_fitted_to_own_column",
+                            f"unconditional dimension {i} was fitted to {len(entries[0][3])} values that are not data[:, {i}]"
+                            + (f" but data[:, {col[0]}]" if col else "")))
+            elif complete and model.distributions[i].parameters != est_ref(data[:, i]):
+                out.append(("unconditional_dimension_fitted_to_own_column",
+                            f"dimension {i}: parameters {model.distributions[i].parameters} vs {est_ref(data[:, i])}"))
+        else:
+            ivs = getattr(model.distributions[i], "data_intervals", None)
+            if ivs is None:
+                continue
+            if len(entries) != len(ivs) or not all(np.array_equal(e[3], np.asarray(d, dtype=float)) for e, d in zip(entries, ivs)):
+                out.append(("interval_fit_receives_interval_data",
+                            f"dimension {i}: {len(entries)} template fits for {len(ivs)} intervals, or not on the intervals' data"))
+    return out
 
 
 def split_line(cfg, cond_col, dist_col):
@@ -251,40 +383,77 @@ def has_boundary_ties(cfg, col):
     return any(0 < c < n and s[c - 1] == s[c] for c in cuts)
 
 
+def fitdesc_tokens(case):
+    fd = case["fit_desc"]
+    if fd is None:
+        return ["absent"]
+    toks = []
+    for k, d in enumerate(fd):
+        if d is None:
+            toks.append("N")
+        else:
+            w = "absent" if "weights" not in d else ("none" if d["weights"] is None else
+                                                     (d["weights"] if isinstance(d["weights"], str) else f"arr{k}"))
+            toks += ["D", d.get("method", "-"), w]
+    return toks
+
+
 def process(ck, case):
     data = np.array(case["data"], dtype=float)
     n_dim = case["n_dim"]
-    model, deps, err, log = fit_model(case, data)
+    own = caller_list(case) if case.get("own_list") else None
+    model, deps, err, log = fit_model(case, data, own)
     ck.case(case, nontrivial=True, sample=ck.evaluations < 3)
     ck.count("part=A")
     ck.count(f"A_n_dim={n_dim}")
+    ck.count("A_rows=%d" % len(data))
+    if case.get("own_list"):
+        ck.count("A_callers_own_fit_descriptions_list")
+    if case.get("as_list"):
+        ck.count("A_data_list_of_lists")
+    if any(c is None for c in case["cond"][1:]):
+        ck.count("A_unconditional_dimension_after_first")
+    if case["fit_desc"] is not None and any(d is not None and isinstance(d.get("weights"), list) for d in case["fit_desc"]):
+        ck.count("A_array_weights")
+        if any(d is not None and isinstance(d.get("weights"), list) and case["cond"][k] is not None
+               for k, d in enumerate(case["fit_desc"][:n_dim])):
+            ck.count("A_array_weights_conditional_dimension")
+    # per-dimension fit options: the model's plan (Lean fillFitDesc) for the description as written by the caller
+    plan_ans = ck.driver.run([" ".join(["RUN", "fitdesc", str(n_dim)] + fitdesc_tokens(case))])[0].split()
+    if plan_ans[0] == "ERR":
+        # model: the descriptions are refused (wrong length / a description without "method", naming the dimension)
+        ck.count("A_fitdesc_refused=" + plan_ans[1])
+        if err is None or not err.startswith("fitdesc:"):
+            ck.diverge("fit-descriptions-refused", case,
+                       f"model refuses the fit descriptions ({' '.join(plan_ans[1:])}); implementation: "
+                       f"{'fitted without error' if err is None else err}")
+        elif plan_ans[1] == "missingMethod" and f"dimension {plan_ans[2]}" not in err:
+            ck.diverge("fit-descriptions-refused", case,
+                       f"model: method missing for dimension {plan_ans[2]}; implementation's message: {err[8:]!r}")
+        return
+    if err and err.startswith("fitdesc:"):
+        ck.diverge("fit-descriptions-refused", case, f"model accepts the fit descriptions, implementation raised ValueError {err[8:]!r}")
+        return
+    if err and err.startswith("crash:"):
+        ck.diverge("fit-pipeline", case, f"the model fits every dimension, implementation raised {err[6:]}")
+        return
     if err and err.startswith("depfit"):
         ck.count("A_dependence_fit_failed")
         return
+    plan = plan_ans[1:]
     bad = []
-    # per-dimension fit options
-    fd = case["fit_desc"]
-    toks = ["absent"] if fd is None else sum(
-        [["N"] if d is None else ["D", d.get("method", "-"),
-                                  ("absent" if "weights" not in d else ("none" if d["weights"] is None else d["weights"]))]
-         for d in fd], [])
-    plan = ck.driver.run([" ".join(["RUN", "fitdesc", str(n_dim)] + toks)])[0].split()[1:]
-    seen = {}
-    for tag, meth, w, arr in log:
-        seen.setdefault(tag, set()).add((meth, w))
-    for i in range(n_dim):
-        m, w = plan[i].split(":")
-        want = ("mle", None) if m == "mle" else ("lsq", None if w == "None" else w)
-        if i in seen and seen[i] != {want}:
-            bad.append(("fit_options_of_own_dimension", f"dimension {i} was fitted with {sorted(map(str, seen[i]))}, expected {want}"))
+    for detail in options_mismatch(case, plan, log):
+        bad.append(("fit_options_of_own_dimension", detail))
+    # which observations every fit received
+    bad += fit_inputs_mismatch(case, data, model, log, complete=err is None)
     # intervals of every conditional dimension
     lines, idx = [], []
     for i in range(n_dim):
         j = case["cond"][i]
         if j is None:
             continue
-        lines.append(split_line(case["slicers"][j], data[:, j], data[:, i]))
-        lines.append(split_line(case["slicers"][j], data[:, j], data[:, j]))
+        lines.append(split_line(eff(case["slicers"][j]), data[:, j], data[:, i]))
+        lines.append(split_line(eff(case["slicers"][j]), data[:, j], data[:, j]))
         idx.append(i)
     answers = ck.driver.run(lines)
     div = None
@@ -293,6 +462,8 @@ def process(ck, case):
         j = case["cond"][i]
         ms, mc = parse_split(answers[2 * k]), parse_split(answers[2 * k + 1])
         ck.count("A_slicer=" + case["slicers"][j]["slicer"])
+        if eff(case["slicers"][j]).get("value_range") is not None:
+            ck.count("A_slicer_value_range")
         if "err" in ms:
             # the fit loop stops at the first dimension whose slicing fails
             if err != ms["err"]:
@@ -304,10 +475,12 @@ def process(ck, case):
             div = f"dimension {i}: implementation raised {err} before fitting it, model returned {len(ms['ivs'])} intervals"
             break
         ivs = ms["ivs"]
+        if case["slicers"][j]["slicer"] == "default":
+            ck.count("A_default_slicer_intervals_fitted")
         if len(dist.data_intervals) != len(ivs):
             bad.append(("interval_count", f"dimension {i}: {len(dist.data_intervals)} vs model {len(ivs)}"))
             continue
-        cfg = case["slicers"][j]
+        cfg = eff(case["slicers"][j])
         for q, iv in enumerate(ivs):
             got = np.asarray(dist.data_intervals[q], dtype=float)
             # oracle: exactly the observations whose conditioning value falls in the interval
@@ -369,8 +542,18 @@ def process(ck, case):
     # order invariance
     if err is None and not bad and div is None:
         perm = np.random.default_rng(case["perm_seed"]).permutation(len(data))
-        model2, deps2, err2, _ = fit_model(case, data[perm])
-        ties = any(has_boundary_ties(case["slicers"][case["cond"][i]], data[:, case["cond"][i]]) for i in idx)
+        model2, deps2, err2, log2 = fit_model(case, data[perm], own)
+        ties = any(has_boundary_ties(eff(case["slicers"][case["cond"][i]]), data[:, case["cond"][i]]) for i in idx)
+        # the options at this second call: with a fresh copy of the description it is the property's clause again; with the
+        # caller's own list (filled in place by the first call) the model's plan for the description as written must still hold
+        for detail in options_mismatch(case, plan, log2):
+            if own is None:
+                bad.append(("fit_options_of_own_dimension", "fit of the permuted rows: " + detail))
+            else:
+                div = div or ("second call with the caller's own fit_descriptions list (filled in place by the first "
+                              "call): " + detail)
+        if err2 is None:
+            bad += [(p_, "fit of the permuted rows: " + d_) for p_, d_ in fit_inputs_mismatch(case, data[perm], model2, log2, True)]
         if ties:
             ck.count("A_ppi_boundary_ties")
         differs = None
@@ -398,14 +581,23 @@ def process(ck, case):
         rng2 = np.random.default_rng(case["perm_seed"] + 1)
         data_b = data[rng2.permutation(len(data))[: max(len(data) * 2 // 3, 10)]] * float(rng2.uniform(1.2, 1.9)) + 0.05
         LOG.clear()
+        data_b_in = np.asarray(data_b).astype(np.int64) if case.get("as_int") else data_b
         with warnings.catch_warnings():
             warnings.simplefilter("ignore")
             try:
-                model.fit(np.asarray(data_b).astype(np.int64) if case.get("as_int") else data_b,
-                          fit_descriptions=copy.deepcopy(case["fit_desc"]))
+                model.fit(data_b_in.tolist() if case.get("as_list") else data_b_in,
+                          fit_descriptions=copy.deepcopy(case["fit_desc"]) if own is None else own)
                 err_re = None
             except Exception as e:  # noqa: BLE001
                 err_re = type(e).__name__ + ":" + str(e)[:40]
+        log_re = list(LOG)
+        for detail in options_mismatch(case, plan, log_re):
+            if own is None:
+                bad.append(("fit_options_of_own_dimension", "re-fit of the fitted model: " + detail))
+            else:
+                div = div or ("re-fit with the caller's own fit_descriptions list (used for two calls before): " + detail)
+        if err_re is None:
+            bad += [(p_, "re-fit of the fitted model: " + d_) for p_, d_ in fit_inputs_mismatch(case, data_b_in, model, log_re, True)]
         try:
             fresh, _, err_f, _ = fit_model(case, data_b)
         except Exception as e:  # noqa: BLE001
@@ -489,6 +681,12 @@ def process_families(ck, sub_seed, n):
         m1 = build()
         try:
             m1.fit(data, fit_descriptions=copy.deepcopy(fd))
+        except NotImplementedError:
+            # (a RuntimeError subclass) LogNormal implements no least squares and its description is None: the first
+            # dimension's options reached it
+            ck.fail({"entry": "GlobalHierarchicalModel.fit", "predicate": "fit_options_of_own_dimension", "families": True}, case,
+                    "the conditional LogNormal dimension (description None) was asked for a least-squares fit")
+            return
         except RuntimeError:
             ck.count("B_fit_failed")
             return
@@ -532,6 +730,212 @@ def process_families(ck, sub_seed, n):
             ck.fail({"entry": "GlobalHierarchicalModel.fit", "predicate": pred, "families": True}, case, detail)
 
 
+# --------------------------------------------------------------------------- (B2)
+# shipped families, arbitrary structure: every dimension (unconditional at any position, or each interval of a
+# conditional one) equals a stand-alone fit of a fresh copy of that dimension's template to exactly its own data WITH
+# THAT DIMENSION'S method and weights; only ExponentiatedWeibullDistribution implements (w)lsq, so options that reach
+# another dimension change the estimates or raise NotImplementedError.
+
+def _fam_dist(spec):
+    from virocon import (ExponentiatedWeibullDistribution, LogNormalDistribution, NormalDistribution, WeibullDistribution)
+
+    cls = {"weibull": WeibullDistribution, "lognormal": LogNormalDistribution, "normal": NormalDistribution,
+           "expweib": ExponentiatedWeibullDistribution}[spec["fam"]]
+    return cls(**spec.get("kw", {}))
+
+
+def _fam_struct(rng, n):
+    """dimension specs + the numpy recipe of the data (the fitted model need not be the generating one)"""
+    ew_fd = lambda: {"method": str(rng.choice(["wlsq", "lsq"])),  # noqa: E731
+                     "weights": [None, "linear", "quadratic", "quadratic"][int(rng.integers(0, 4))]}
+    ew_cond = lambda j: {"fam": "expweib", "kw": {"f_delta": float(rng.choice([5.0, 2.0]))} if rng.integers(0, 4) else {},  # noqa: E731
+                         "cond": j, "deps": ["alpha", "beta", "delta"], "fd": ew_fd(), "gen": "scaled"}
+    plain_fd = lambda: [None, {"method": "mle"}, {"method": "mle", "weights": None}][int(rng.integers(0, 3))]  # noqa: E731
+    d0 = {"fam": "expweib", "cond": None, "fd": ew_fd(), "gen": "weibull"} if rng.integers(0, 3) == 0 else \
+        {"fam": "weibull", "cond": None, "fd": plain_fd(), "gen": "weibull"}
+    v = int(rng.integers(0, 4))
+    if v == 0:      # 2-D: virocon's OMAE2020-like model: conditional exponentiated Weibull, WLSQ
+        dims = [d0, ew_cond(0)]
+    elif v == 1:    # 3-D chain, the last dimension conditional on dimension 0 or 1
+        dims = [d0, {"fam": "lognormal", "cond": 0, "deps": ["mu", "sigma"], "fd": plain_fd(), "gen": "lognormal"},
+                ew_cond(int(rng.integers(0, 2)))]
+    elif v == 2:    # 3-D: an unconditional dimension in the middle, the last conditional on it
+        dims = [d0, {"fam": str(rng.choice(["normal", "weibull"])), "cond": None, "fd": plain_fd(), "gen": "free"},
+                ew_cond(1) if rng.integers(0, 2) else
+                {"fam": "lognormal", "cond": 1, "deps": ["mu", "sigma"], "fd": plain_fd(), "gen": "scaled"}]
+    else:           # 3-D: unconditional LAST dimension (its own column, its own options)
+        dims = [d0, ew_cond(0),
+                {"fam": "expweib", "kw": {"f_delta": 3.0} if rng.integers(0, 2) else {}, "cond": None, "fd": ew_fd(), "gen": "free"}
+                if rng.integers(0, 2) else {"fam": "normal", "cond": None, "fd": plain_fd(), "gen": "free"}]
+    for d in dims:
+        r = int(rng.integers(0, 3)) if n >= 1000 else int(rng.integers(0, 2))
+        d["slicer"] = [{"slicer": "width", "width": 0.8, "right_open": True, "ref": "center", "value_range": None,
+                        "min_pts": 30, "min_iv": 2},
+                       {"slicer": "number", "n_intervals": 6, "include_max": True, "ref": "center", "value_range": None,
+                        "min_pts": 30, "min_iv": 2},
+                       {"slicer": "default"}][r]
+    return dims
+
+
+def _fam_data(rng, dims, n):
+    cols = []
+    for d in dims:
+        if d["gen"] == "weibull":
+            c = 2.0 * rng.weibull(1.6, n) + 0.02
+        elif d["gen"] == "free":
+            c = np.abs(rng.normal(6.0, 1.5, n)) + 0.05
+        elif d["gen"] == "lognormal":
+            x = cols[d["cond"]]
+            c = rng.lognormal(np.log(2.0 + 4.0 * np.sqrt(x / 9.81)), 0.1 + 0.3 / (1 + 0.4 * x))
+        else:
+            c = (0.8 + 0.5 * cols[d["cond"]]) * rng.weibull(2.2, n) + 0.02
+        cols.append(c)
+    return np.column_stack(cols)
+
+
+def _fam_model(dims):
+    from virocon import DependenceFunction, GlobalHierarchicalModel
+
+    descs = []
+    for d in dims:
+        desc = {"distribution": _fam_dist(d)}
+        if d["slicer"]["slicer"] != "default":
+            desc["intervals"] = make_slicer(d["slicer"])
+        if d["cond"] is not None:
+            desc["conditional_on"] = d["cond"]
+            desc["parameters"] = {p: DependenceFunction(models._linear2) for p in d["deps"]
+                                  if "f_" + p not in d.get("kw", {})}
+        descs.append(desc)
+    return GlobalHierarchicalModel(descs)
+
+
+def _fam_fit_one(d, values):
+    """stand-alone fit of a fresh template of dimension d, with d's OWN method and weights"""
+    t = _fam_dist(d)
+    fd = d["fd"]
+    with warnings.catch_warnings():
+        warnings.simplefilter("ignore")
+        if fd is None:
+            t.fit(values)
+        else:
+            t.fit(values, fd["method"], fd.get("weights"))
+    return t.parameters
+
+
+def _close(pa, pb, rtol):
+    return set(pa) == set(pb) and all(abs(pa[k] - pb[k]) <= rtol * max(1.0, abs(pa[k])) for k in pa)
+
+
+def process_families2(ck, sub_seed, n):
+    rng = np.random.default_rng(sub_seed)
+    dims = _fam_struct(rng, n)
+    data = _fam_data(rng, dims, n)
+    if rng.integers(0, 2):
+        data = np.round(data, 2) + 0.01
+    as_list = bool(rng.integers(0, 3) == 0)
+    perm = rng.permutation(len(data))
+    case = {"part": "B2", "n": n, "sub_seed": int(sub_seed), "as_list": as_list,
+            "dims": [{k: v for k, v in d.items()} for d in dims]}
+    ck.case(case, nontrivial=True, sample=False)
+    ck.count("part=B2")
+    ck.count(f"B2_n_dim={len(dims)}")
+    ck.count("B2_rows=%d" % n)
+    sig = {"entry": "GlobalHierarchicalModel.fit", "families": True}
+    fds = [copy.deepcopy(d["fd"]) for d in dims]
+
+    def run_fit(matrix):
+        m = _fam_model(dims)
+        with warnings.catch_warnings():
+            warnings.simplefilter("ignore")
+            try:
+                m.fit(matrix.tolist() if as_list else matrix, fit_descriptions=copy.deepcopy(fds))
+            except NotImplementedError:
+                # only the exponentiated Weibull implements (w)lsq and only it is given (w)lsq here
+                return m, "NotImplementedError"
+            except RuntimeError as e:
+                return m, "RuntimeError:" + str(e)[:60]
+            except (TypeError, AttributeError, IndexError, KeyError) as e:
+                return m, "crash:" + type(e).__name__ + ":" + str(e)[:60]
+        return m, None
+
+    m1, err = run_fit(data)
+    if err == "NotImplementedError":
+        ck.fail(dict(sig, predicate="fit_options_of_own_dimension"), case,
+                "a least-squares fit was requested from a dimension whose own description says mle / nothing")
+        return
+    if err is not None and err.startswith("crash:"):
+        ck.diverge("fit-pipeline-families", case, f"the model fits every dimension, implementation raised {err[6:]}")
+        return
+    if err is not None:
+        ck.count("B2_fit_failed")
+        return
+    if as_list:
+        ck.count("B2_data_list_of_lists")
+    bad = []
+    lines, idx = [], []
+    for i, d in enumerate(dims):
+        if d["cond"] is not None:
+            lines.append(split_line(eff(dims[d["cond"]]["slicer"]), data[:, d["cond"]], data[:, i]))
+            idx.append(i)
+    answers = dict(zip(idx, ck.driver.run(lines))) if lines else {}
+    for i, d in enumerate(dims):
+        dist = m1.distributions[i]
+        tag = f"{d['fam']}{'|%d' % d['cond'] if d['cond'] is not None else ''}:" \
+              f"{'default' if d['fd'] is None else d['fd']['method'] + '/' + str(d['fd'].get('weights'))}"
+        if d["cond"] is None:
+            if i > 0:
+                ck.count("B2_unconditional_dimension_after_first")
+            want = _fam_fit_one(d, data[:, i])
+            if dist.parameters != want:
+                bad.append(("unconditional_dimension_fitted_to_own_column" if _fam_fit_one(d, data[:, 0]) == dist.parameters and i > 0
+                            else "estimate_is_standalone_fit_with_own_options",
+                            f"dimension {i} ({tag}): {dist.parameters} vs stand-alone fit of data[:, {i}] {want}"))
+            continue
+        ck.count("B2_conditional=" + tag.split(":")[0].split("|")[0] + ":" + tag.split(":")[1])
+        if dims[d["cond"]]["slicer"]["slicer"] == "default":
+            ck.count("B2_default_slicer")
+        if "kw" in d and d["kw"]:
+            ck.count("B2_template_with_fixed_parameter")
+        ms = parse_split(answers[i])
+        if "err" in ms or len(ms["ivs"]) != len(dist.data_intervals):
+            ck.diverge("fit-pipeline-families", case,
+                       f"dimension {i}: model {ms.get('err', len(ms.get('ivs', [])))} vs {len(dist.data_intervals)} intervals")
+            return
+        for q, iv in enumerate(ms["ivs"]):
+            if not np.array_equal(np.asarray(dist.data_intervals[q], dtype=float), iv["data"]):
+                bad.append(("interval_data_are_own_observations", f"dimension {i} interval {q}"))
+                break
+            want = _fam_fit_one(d, iv["data"])
+            if dist.parameters_per_interval[q] != want:
+                bad.append(("estimate_is_standalone_fit_with_own_options",
+                            f"dimension {i} ({tag}) interval {q}: {dist.parameters_per_interval[q]} vs stand-alone fit of the "
+                            f"template to the interval's data with this dimension's method and weights {want}"))
+                break
+    # order invariance
+    if not bad:
+        m2, err2 = run_fit(data[perm])
+        if err2 is not None:
+            bad.append(("order_invariant", f"fit of the permuted rows raised {err2}"))
+        else:
+            for i, d in enumerate(dims):
+                a, b = m1.distributions[i], m2.distributions[i]
+                if d["cond"] is None:
+                    if not _close(a.parameters, b.parameters, 1e-6):
+                        bad.append(("order_invariant", f"dimension {i}: {a.parameters} vs {b.parameters}"))
+                    continue
+                if len(a.parameters_per_interval) != len(b.parameters_per_interval) or not all(
+                        _close(u, v, 1e-6) for u, v in zip(a.parameters_per_interval, b.parameters_per_interval)):
+                    bad.append(("order_invariant", f"dimension {i}: per-interval estimates differ after permuting the rows"))
+                    continue
+                xs = np.asarray(a.conditioning_values, dtype=float)
+                for p in a.conditional_parameters:
+                    fa, fb = a.conditional_parameters[p](xs), b.conditional_parameters[p](xs)
+                    if not np.allclose(fa, fb, rtol=1e-5, atol=1e-8):
+                        bad.append(("order_invariant", f"dimension {i}: dependence function of {p} differs after permuting the rows"))
+    for pred, detail in bad:
+        ck.fail(dict(sig, predicate=pred), case, detail)
+
+
 def _dep(func, pars):
     from virocon import DependenceFunction
 
@@ -543,18 +947,30 @@ def _dep(func, pars):
 def main(ck):
     rng = np.random.default_rng(ck.seed)
     thorough = ck.tier == "thorough"
-    ck.rule = ("(A) random data matrices (30..1000 rows; raw, rounded, heavy ties, sorted) x 2-D/3-D structures x random "
-               "Width/Number/PointsPerInterval slicer options x fixed/dependent parameters x fit descriptions (None, mle, "
-               "lsq, wlsq+weights, absent), first fit and fit of the permuted matrix, over recording doubles; (B) shipped "
-               "families (Weibull / exponentiated Weibull WLSQ + conditional LogNormal), 300..3000 rows; distinct by SHA1")
+    ck.rule = ("(A) random data matrices (30..5000 rows, thorough also 20000; raw, rounded, heavy ties, sorted, int64, list of "
+               "rows) x 2-D/3-D structures incl. unconditional dimensions after the first x random Width/Number/"
+               "PointsPerInterval slicer options incl. value_range and the default slicer (no 'intervals' key) x fixed/dependent "
+               "parameters x fit descriptions (None, mle, lsq, wlsq+keyword, wlsq+per-row array also on conditional dimensions, "
+               "absent, without 'method', wrong length; fresh copy or the caller's own list reused for three calls), first fit, "
+               "fit of the permuted matrix and re-fit, over recording doubles; (B) shipped families (Weibull / exponentiated "
+               "Weibull WLSQ + conditional LogNormal), 300..3000 rows (thorough ..20000); (B2) shipped families in 2-D/3-D "
+               "structures (conditional exponentiated Weibull with fixed delta fitted by (w)lsq with keyword weights, conditional "
+               "LogNormal, unconditional middle/last dimensions, default slicer, list-of-lists input), every dimension "
+               "compared with a stand-alone fit using its own method and weights; distinct by SHA1")
     ck.assumptions = ["recording doubles use exactly permutation-invariant closed-form estimators (median, range)",
                       "np.argsort's result is passed to the PointsPerInterval model as the sorting permutation"]
     ck.partial = {"order invariance of iterative estimators": "MLE / least squares are permutation invariant only up to float "
                   "summation and optimiser noise; compared with rtol 1e-6 / 1e-5 at runtime"}
     for case in gen_cases(rng, 1500 if thorough else 150):
         process(ck, case)
+    # row counts over the property's whole range (300..20000)
+    for case in gen_cases(rng, 60 if thorough else 8, sizes=(3000, 5000, 20000) if thorough else (3000, 5000)):
+        process(ck, case)
     for _ in range(24 if thorough else 6):
         process_families(ck, int(rng.integers(0, 2**31)), int(rng.choice([300, 1000, 3000])) if not thorough else int(rng.choice([1000, 5000, 20000])))
+    for _ in range(60 if thorough else 14):
+        process_families2(ck, int(rng.integers(0, 2**31)),
+                          int(rng.choice([300, 1000, 3000])) if not thorough else int(rng.choice([300, 1000, 5000, 20000])))
 
 
 def replay(ck, payload):
@@ -563,6 +979,8 @@ def replay(ck, payload):
         process(ck, case)
     elif case.get("part") == "B" and "sub_seed" in case:
         process_families(ck, case["sub_seed"], case["n"])
+    elif case.get("part") == "B2":
+        process_families2(ck, case["sub_seed"], case["n"])
     for s, c, d in ck.failures:
         print("oracle:", s, d)
     for k in ck.known_seen:
